@@ -33,6 +33,16 @@ def _sets(rng, tier):
         for r in (1, 2, 3):
             sets.append(gen.children(gen.mkcell(0, bc, []), r))
     sets.append([gen.mkcell(1, b, [d]) for b in range(122) for d in range(7) if not (b in gen.PENT_SET and d == 1)])  # all of res 1
+    # fine resolutions inside pentagon base cells: hexagons whose digits are one non-zero digit and otherwise zeros (the
+    # pentagon test of the child iterator reads the whole digit field), their complete families one and two levels down
+    for _ in range(12 if tier == "quick" else 80):
+        r = rng.randrange(7, 14)
+        ds = [0] * r
+        ds[rng.randrange(0, min(r, 4))] = rng.randrange(2, 7)
+        top = gen.mkcell(r, rng.choice(gen.PENT), ds)
+        fam = gen.children(top, r + rng.choice([1, 1, 2]))
+        sib = gen.children(gen.mkcell(r, (top >> 45) & 127, ds[:-1] + [rng.randrange(1, 7)]), (fam[0] >> 52) & 15)
+        sets.append(fam + sib[: rng.randrange(0, 4)])
     return sets
 
 
